@@ -7,6 +7,7 @@ package main
 import (
 	"bytes"
 	"context"
+	"crypto/x509"
 	"encoding/json"
 	"fmt"
 	"sort"
@@ -64,7 +65,7 @@ func rtSigner(in RTIn, chain *Chain) interface {
 	notation.BlobSigner
 } {
 	switch in.Signer {
-	case "local":
+	case "local", "localTSA":
 		s, err := signer.NewGenericSigner(chain.LeafKey(), chain.Certs)
 		must(err)
 		return s
@@ -82,13 +83,20 @@ func rtSigner(in RTIn, chain *Chain) interface {
 	panic("unknown signer kind " + in.Signer)
 }
 
-func rtVerifier(chain *Chain) (notation.Verifier, notation.BlobVerifier) {
+func rtVerifier(chain *Chain, withTSA bool) (notation.Verifier, notation.BlobVerifier) {
 	st := newMockTrustStore()
 	st.put(truststore.TypeCA, "s1", chain.Root())
 	sv := trustpolicy.SignatureVerification{VerificationLevel: "strict"}
+	stores := []string{"ca:s1"}
+	if withTSA {
+		// a tsa store in the policy makes timestamp verification mandatory (verifyTimestamp: always)
+		st.put(truststore.TypeTSA, "t1", tsaGood().chain.Root())
+		stores = append(stores, "tsa:t1")
+		sv.VerifyTimestamp = trustpolicy.OptionAlways
+	}
 	v, err := verifier.NewVerifierWithOptions(st, verifier.VerifierOptions{
-		OCITrustPolicy:                  &trustpolicy.OCIDocument{Version: "1.0", TrustPolicies: []trustpolicy.OCITrustPolicy{{Name: "p", SignatureVerification: sv, TrustStores: []string{"ca:s1"}, TrustedIdentities: []string{"x509.subject: " + chain.Leaf().Subject.String()}, RegistryScopes: []string{"*"}}}},
-		BlobTrustPolicy:                 &trustpolicy.BlobDocument{Version: "1.0", TrustPolicies: []trustpolicy.BlobTrustPolicy{{Name: "bp", SignatureVerification: sv, TrustStores: []string{"ca:s1"}, TrustedIdentities: []string{"*"}}}},
+		OCITrustPolicy:                  &trustpolicy.OCIDocument{Version: "1.0", TrustPolicies: []trustpolicy.OCITrustPolicy{{Name: "p", SignatureVerification: sv, TrustStores: stores, TrustedIdentities: []string{"x509.subject: " + chain.Leaf().Subject.String()}, RegistryScopes: []string{"*"}}}},
+		BlobTrustPolicy:                 &trustpolicy.BlobDocument{Version: "1.0", TrustPolicies: []trustpolicy.BlobTrustPolicy{{Name: "bp", SignatureVerification: sv, TrustStores: stores, TrustedIdentities: []string{"*"}}}},
 		RevocationCodeSigningValidator:  ctxValidator{&mockRevocation{}},
 		RevocationTimestampingValidator: ctxValidator{&mockRevocation{}},
 	})
@@ -145,11 +153,17 @@ func runRoundTrip() int {
 		must(json.Unmarshal(c.In, &in))
 		chain := rtChain(in.KeySpec)
 		sg := rtSigner(in, chain)
-		ver, bver := rtVerifier(chain)
+		ver, bver := rtVerifier(chain, in.Signer == "localTSA")
 		meta := rtMeta(in.Meta)
 		ctx := context.Background()
 		obs := RTObs{PayloadFields: []string{}}
 		sopts := notation.SignerSignOptions{SignatureMediaType: mediaTypeOf(in.Format), ExpiryDuration: time.Duration(in.Expiry) * time.Second, SigningAgent: "verif-harness/1"}
+		if in.Signer == "localTSA" {
+			// the library's own signing path asks the mini-TSA for an RFC 3161 countersignature
+			pool := x509.NewCertPool()
+			pool.AddCert(tsaGood().chain.Root())
+			sopts.Timestamper, sopts.TSARootCAs, sopts.TSARevocationValidator = tsaGood(), pool, ctxValidator{&mockRevocation{}}
+		}
 		var outcome *notation.VerificationOutcome
 		var wantTarget ocispec.Descriptor
 		panicked, msg := guarded(func() {
@@ -249,6 +263,9 @@ func runRoundTrip() int {
 					obs.Expiry = 0
 				} else {
 					obs.Expiry = int(sa.Expiry.Sub(sa.SigningTime) / time.Second)
+				}
+				if in.Signer == "localTSA" && len(outcome.EnvelopeContent.SignerInfo.UnsignedAttributes.TimestampSignature) == 0 {
+					obs.PayloadOK = false // the countersignature must be there (and was demanded by the policy)
 				}
 				um, uerr := outcome.UserMetadata()
 				// the metadata read back is exactly the signed annotations (user metadata included)
